@@ -179,6 +179,13 @@ Proof.
   - destruct Hin as [E|[]]. injection E as -> ->. eapply H; exact He.
 Qed.
 
+(* a run that fails while rows are flowing never reaches the finalizer's callback: what happens is exactly what happened
+   before the failure *)
+Theorem finalizer_silent_on_failure kf a k x b : no_fail a -> drive (finalizing kf (a ++ EFail k x :: b)) = (a, Raised k x).
+Proof.
+  intros H. unfold finalizing. rewrite <- app_assoc. simpl. apply failure_raises, H.
+Qed.
+
 Theorem failure_propagates g a k x b :
   quiet g -> no_fail a ->
   drive (lmap g (a ++ EFail k x :: b)) = (lmap g a, Raised k x).
